@@ -293,6 +293,71 @@ pub fn check(sh: &Shared, c: &Case) -> Check {
     Ok(())
 }
 
+#[derive(Clone, Debug, Serialize, Deserialize)]
+pub struct FragCase {
+    pub fi: usize,
+    pub t: TD,
+    /// which of the five items are written: 1 budget, 2 term (always set), 4 punctuation, 8 stamp, 16 truth
+    pub mask: u8,
+}
+
+/// classification of PARTIAL inputs: task ⇔ budget ∧ term ∧ punctuation; sentence ⇔ term ∧
+/// punctuation without budget; otherwise a term — identically in both parsers
+pub fn check_fragment(sh: &Shared, c: &FragCase) -> Check {
+    use crate::printer::{self, Printer, Style};
+    use narsese::api::{GetBudget, GetPunctuation, GetStamp, GetTerm, GetTruth};
+    let fi = c.fi.min(2);
+    if !c.t.s.term.arity_ok() {
+        fail!("harness/bad-case", "description violates arity");
+    }
+    sh.eval();
+    let mask = c.mask | 2;
+    let task = build_task(&c.t);
+    let s = task.get_sentence();
+    let mut p = Printer::new(fi, Style::Plain, &[]);
+    if mask & 1 != 0 {
+        p.budget(task.get_budget());
+        p.gap(2);
+    }
+    p.term(s.get_term());
+    if mask & 4 != 0 {
+        p.punct(s.get_punctuation());
+    }
+    if mask & 8 != 0 {
+        p.gap(2);
+        p.stamp(s.get_stamp());
+    }
+    if mask & 16 != 0 {
+        if let Some(tr) = s.get_truth() {
+            p.gap(2);
+            p.truth(tr);
+        }
+    }
+    let text = printer::render(fi, &p.out);
+    let want: u8 = if mask & 4 == 0 { 0 } else if mask & 1 != 0 { 2 } else { 1 };
+    sh.class(&format!("fragment/mask{mask:02}"));
+    sh.class(&format!("fragment/kind{want}"));
+    if mask != 2 {
+        sh.nontrivial(fp(&(fi, &text)));
+        sh.sample(&format!("fragment/{}/{want}", fmts::FMT_NAMES[fi]), || json!({"format": fmts::FMT_NAMES[fi], "text": text, "expected_kind": want}));
+    }
+    let (ke, kl, _, _) = parsed_kinds(fi, &text)?;
+    if ke != want || kl != want {
+        fail!("classify:fragment-kind", "text {text:?} (items written: mask {mask:#07b})\nexpected kind {want}, enum parser says {ke}, lexical parser says {kl} (0 term, 1 sentence, 2 task)");
+    }
+    Ok(())
+}
+
+pub fn strategy_fragment() -> BoxedStrategy<FragCase> {
+    gen::fmt_and(|fi| (gen::task_with(gen::term(gen::TermOpts { depth: 2, size: 8, ..gen::TermOpts::main(fi) })), 0u8..32).boxed())
+        .prop_map(|(fi, (t, mask))| FragCase { fi, t, mask })
+        .boxed()
+}
+
+pub fn small_scope() -> Vec<Case> {
+    crate::props::c01::small_scope().into_iter().filter(|(_, nd)| !matches!(nd, ND::Term(_))).map(|(fi, v)| Case { fi, v, tape: vec![1, 2] }).collect()
+}
+
 pub fn strategy() -> BoxedStrategy<Case> {
     gen::fmt_and(|fi| (gen::narsese(gen::TermOpts { depth: 3, size: 12, ..gen::TermOpts::main(fi) }), gen::tape()).boxed())
         .prop_map(|(fi, (v, tape))| Case { fi, v, tape })
@@ -300,7 +365,22 @@ pub fn strategy() -> BoxedStrategy<Case> {
 }
 
 pub fn streams() -> Vec<Box<dyn AnyStream>> {
-    vec![Box::new(Stream::<Case> {
+    vec![
+        Box::new(Stream::<Case> {
+            name: "small-scope",
+            quick: 0,
+            thorough: 0,
+            source: Source::Enum(Box::new(|_| Box::new(small_scope().into_iter()))),
+            check: Box::new(check),
+        }),
+        Box::new(Stream::<FragCase> {
+            name: "fragments",
+            quick: 20_000,
+            thorough: 1_000_000,
+            source: Source::Gen(Box::new(strategy_fragment)),
+            check: Box::new(check_fragment),
+        }),
+        Box::new(Stream::<Case> {
         name: "conversions",
         quick: 40_000,
         thorough: 2_000_000,
@@ -311,7 +391,7 @@ pub fn streams() -> Vec<Box<dyn AnyStream>> {
 
 pub const PROP: Prop = Prop {
     id: "C15",
-    rule: "cases = (format, well-formed enum term/sentence/task, tape) and the arity-valid lexical mirror of the same value; laws: kind(parse(format(v))) = kind(v) in the enum and the lexical parser; is_*/try_into_* succeed exactly for the matching kind and return the value; try_into_task_compatible; NarseseValue- and Task-level try_cast_to_sentence (Ok iff budget empty, otherwise the unchanged task back); cast_to_task round-trip; a sentence cast to a task prints as a task with empty budget for both parsers; the same laws on lexical values; non-trivial = sentence or task; distinct = fingerprint of (format, value)",
+    rule: "cases = (format, well-formed enum term/sentence/task, tape) and the arity-valid lexical mirror of the same value; laws: kind(parse(format(v))) = kind(v) in the enum and the lexical parser; is_*/try_into_* succeed exactly for the matching kind and return the value; try_into_task_compatible; NarseseValue- and Task-level try_cast_to_sentence (Ok iff budget empty, otherwise the unchanged task back); cast_to_task round-trip; a sentence cast to a task prints as a task with empty budget for both parsers; the same laws on lexical values; stream fragments: partial inputs (any subset of budget / punctuation / stamp / truth around a term) must be classified by the stated rule by both parsers; small-scope: every decoration combination of C01's enumeration; non-trivial = sentence or task / a fragment with at least one item besides the term; distinct = fingerprint of (format, value)",
     assumptions: &["canonical form as in C01"],
     streams,
 };
